@@ -146,3 +146,14 @@ PROPS["C13"] = {
     "trusted_base": THRIFT_TB + ["the specification oracle is a transcription from memory of thrift-binary-protocol.md / thrift-compact-protocol.md: no Apache Thrift implementation exists on this machine (weakest oracle of the development)"],
     "assumptions": ["the oracle writes fields in id order and elides the same fields as the package (nil pointers, zero-valued non-required fields)"],
 }
+
+PROPS["C01"] = {
+    "harness": "c01",
+    "models": ["Generated/JsonParseGen.v json_escapeIndex (component)"],
+    "rule": "hand-picked + seeded random Go types built with reflect (struct tags incl. omitempty/string/-, embedded named structs by value and pointer, pointers, interfaces, maps with string/integer/TextMarshaler keys, Marshaler/TextMarshaler on value and pointer receivers, Number, RawMessage, time.Time, arrays, > 32 fields) "
+            "x values from a per-case seed (boundary integers, float formatting cut-offs, escapable bytes at every offset, invalid UTF-8, NaN/Inf, invalid Numbers/RawMessages, erroring marshalers), by value and by pointer; Encoder under every SetEscapeHTML/SetIndent setting; Escape/AppendEscape on strings with every escapable byte at every offset 0..24; "
+            "oracle encoding/json (same bytes, or both fail)",
+    "nontrivial": nontrivial_default,
+    "trusted_base": COMMON_TB + ["the reflection-driven encoder (json/encode.go, json/codec.go) is NOT modelled as a whole: only components are proved (string escaping index, integer formatting, validation of RawMessage/Marshaler output through the proved recogniser); everything else is decided by differential execution against encoding/json"],
+    "assumptions": ["time.Duration is excluded (sanctioned difference)"],
+}
